@@ -25,6 +25,8 @@
 //                                 both slots and the contents differ (a flag mismatch shows up on the flag field itself)
 //   hash <k> f...                 64-bit FNV over the listed fields ("*" = every field)
 //   scalar <k> <name>             any scalar member, decimal
+//   setcb <0|1>                   install / remove a control callback (counts its calls; sets ctrl[0] = 0.125 when nu > 0)
+//   cbcount                       number of control-callback calls since the last query
 //   errors                        number of mju_error / mju_warning calls since the last query, last error text
 // Pseudo fields: sensordata@sensPos / @sensVel / @sensAcc (entries of sensors with that needstage), energy@ePos (energy[0]),
 // energy@eVel (energy[1]), contact (semantic members of each mjContact; padding and the solver's cone-Hessian scratch H excluded).
@@ -60,6 +62,8 @@ static void on_error(const char* msg) {
   exit(3);
 }
 static void on_warning(const char* msg) { (void)msg; nwarn++; }
+static int ncb = 0;
+static void control_cb(const mjModel* mm, mjData* dd) { ncb++; if (mm->nu > 0) dd->ctrl[0] = 0.125; }
 
 // ---------------------------------------------------------------- field table
 // type: 0 double, 1 int, 2 byte, 3 8-byte unsigned, 5 opaque bytes, 6 contact array
@@ -210,7 +214,7 @@ static void poison_field(Field* f) {
         c->includemargin += 0.11; c->mu += 0.3;
       }
     }
-    else for (size_t k = 0; k < n; k++) p[k] = (char)rnd();
+    else for (size_t k = 0; k < n; k++) p[k] = (char)(rnd() % 4);   // statistics structs: small junk (their doubles stay tiny)
   }
 }
 
@@ -491,6 +495,10 @@ int main(void) {
       else if (f->type == 1) printf("%d\n", *(int*)f->seg[0].p);
       else if (f->type == 2) printf("%d\n", (int)*(unsigned char*)f->seg[0].p);
       else printf("%llu\n", (unsigned long long)*(uint64_t*)f->seg[0].p);
+    } else if (!strcmp(op, "setcb") && n == 2) {
+      mjcb_control = atoi(tok[1]) ? control_cb : NULL; printf("ok\n");
+    } else if (!strcmp(op, "cbcount")) {
+      printf("%d\n", ncb); ncb = 0;
     } else if (!strcmp(op, "errors")) {
       printf("%d %d %s\n", nerr, nwarn, nerr ? lasterr : "-");
       nerr = 0; nwarn = 0;
